@@ -106,6 +106,7 @@ REVERTS = [
  ('regress_c12_smartobject_assign_order', 'C12', 'b18473b'),
  ('regress_c12_array_assign_order', 'C12', 'ff27779'),
  ('regress_c12_hashmap_assign_order', 'C12', 'c262c84'),
+ ('regress_c13_join_marks_finished', 'C13', 'e33520e'),
 ]
 
 
